@@ -33,7 +33,8 @@ Inductive dprim (nw : Z) : (dev -> Prop) -> (dev -> dev) -> Prop :=
 | dp_finish it : dprim nw (fun x => d_part x = Some it /\ d_out x = None /\ (d_kind x = KHandler \/ d_kind x = KSink)) (t_finish it)
 | dp_finish_proc it : dprim nw (fun x => d_part x = Some it /\ d_out x = None /\ d_kind x = KProcessor) (t_finish_proc nw it)
 | dp_fail_clear : dprim nw (fun x => d_kind x = KProcessor) (t_fail_clear nw)
-| dp_clear_out : dprim nw (fun _ => True) t_clear_out
+| dp_clear_out : dprim nw (fun x => d_kind x <> KSink) t_clear_out
+| dp_clear_out_sink : dprim nw (fun x => d_kind x = KSink) t_clear_out
 | dp_clear_part :
     dprim nw (fun x => d_kind x = KBatcher /\ exists b, d_part x = Some (IBatch b [])) t_clear_part
 | dp_batch_single rest p :
@@ -43,12 +44,12 @@ Inductive dprim (nw : Z) : (dev -> Prop) -> (dev -> dev) -> Prop :=
 | dp_batch_full rest b ps p size :
     dprim nw (fun x => d_kind x = KBatcher /\ d_out x = None /\ d_batch_size x = Some size /\ size <= Z.of_nat (length (ps ++ [p])) /\
                     (exists it0, d_part x = Some it0 /\ batch_take it0 = Some (p, rest)) /\
-                    (d_inprog x = Some (IBatch b ps) \/ (ps = [] /\ forall b' ps', d_inprog x <> Some (IBatch b' ps'))))
+                    (d_inprog x = Some (IBatch b ps) \/ (ps = [] /\ d_inprog x = None)))
           (t_batch_full rest b (ps ++ [p]))
 | dp_batch_more rest b ps p size :
     dprim nw (fun x => d_kind x = KBatcher /\ d_out x = None /\ d_batch_size x = Some size /\ Z.of_nat (length (ps ++ [p])) < size /\
                     (exists it0, d_part x = Some it0 /\ batch_take it0 = Some (p, rest)) /\
-                    (d_inprog x = Some (IBatch b ps) \/ (ps = [] /\ forall b' ps', d_inprog x <> Some (IBatch b' ps'))))
+                    (d_inprog x = Some (IBatch b ps) \/ (ps = [] /\ d_inprog x = None)))
           (t_batch_more rest b (ps ++ [p]))
 | dp_reserved o : dprim nw (fun _ => True) (t_reserved o)
 | dp_waiting_res b : dprim nw (fun _ => True) (t_waiting_res b)
@@ -67,6 +68,28 @@ Inductive dprim (nw : Z) : (dev -> Prop) -> (dev -> dev) -> Prop :=
 | dp_block b : dprim nw (fun _ => True) (t_block b)
 | dp_budget z : dprim nw (fun _ => True) (t_budget z).
 
+(** * where the parts are: the counting function behind the census (C02) *)
+Fixpoint cnt (z : Z) (l : list Z) : Z := match l with [] => 0 | y :: l' => (if z =? y then 1 else 0) + cnt z l' end.
+
+Lemma cnt_app z a b : cnt z (a ++ b) = cnt z a + cnt z b.
+Proof. induction a as [|y a IH]; cbn [app cnt]; [lia|]. rewrite IH. lia. Qed.
+
+(** the parts inside a device (a sink keeps nothing: what it takes is delivered) *)
+Definition buf_leaves (b : list (Z * item)) : list Z := flat_map (fun e => item_leaves (snd e)) b.
+Definition dev_inside (x : dev) : list Z :=
+  match d_kind x with
+  | KSink => []
+  | _ => opt_leaves (d_part x) ++ opt_leaves (d_out x) ++ opt_leaves (d_inprog x) ++ buf_leaves (d_buf x)
+  end.
+(** inside + delivered + lost - made, per part identity: 0 everywhere is the census equation *)
+Definition psi (x : dev) (z : Z) : Z := cnt z (dev_inside x) + cnt z (d_delivered x) + cnt z (d_lost x) - cnt z (d_made x).
+Definition neutral (g : dev -> Prop) (f : dev -> dev) : Prop := forall x z, g x -> psi (f x) z = psi x z.
+
+Lemma neutral_same (g : dev -> Prop) (f : dev -> dev) :
+  (forall x, d_kind (f x) = d_kind x /\ d_part (f x) = d_part x /\ d_out (f x) = d_out x /\ d_inprog (f x) = d_inprog x /\
+             d_buf (f x) = d_buf x /\ d_made (f x) = d_made x /\ d_delivered (f x) = d_delivered x /\ d_lost (f x) = d_lost x) -> neutral g f.
+Proof. intros H x z _. destruct (H x) as [A [B [C [D [E [F [G0 H0]]]]]]]. unfold psi, dev_inside. rewrite A, B, C, D, E, F, G0, H0. reflexivity. Qed.
+
 (** the copy of the manager a floor call works on: no pending output, no error *)
 Definition clean_rs (r0 : rs) : rs :=
   mkRs (r_pools r0) (r_wait r0) (r_res r0) (r_slots r0) (r_cblog r0) [] 0 (r_env r0) (r_nreg r0).
@@ -79,29 +102,43 @@ Definition rm_quiet (s s' : rs) : Prop :=
 Definition keeps_res (f : dev -> dev) : Prop := forall x, d_reserved (f x) = d_reserved x /\ d_req (f x) = d_req x.
 
 (** world-level steps: what one primitive action of the floor model does to the whole world *)
-Inductive wstep (nw : Z) : fw -> fw -> Prop :=
-| ws_dev w d g f : dprim nw g f -> keeps_res f -> g (getd w d) -> wstep nw w (updd w d f)
-| ws_emit w c : wstep nw w (emitf w c)
-| ws_failf w e : wstep nw w (failf w e)
-| ws_log w l : wstep nw w (w <| f_cblog ::= cons l |>)
-| ws_nextid w z : wstep nw w (w <| f_next_id := z |>)
-| ws_maint w mid f : wstep nw w (maint_call w mid f)
-| ws_rm_quiet w f : rm_quiet (clean_rs (f_rm w)) (f (clean_rs (f_rm w))) -> wstep nw w (rm_call w f)
+(** what a part waiting to be handed over looks like from outside, and what is kept while it is being offered downstream:
+    the finished part of a device (not a sink) and the head of a buffer stay where they are, with the same identities *)
+Definition out_kept (x x' : dev) : Prop :=
+  d_kind x' = d_kind x /\
+  (d_kind x <> KSink -> forall o, d_out x = Some o -> exists o', d_out x' = Some o' /\ item_leaves o' = item_leaves o) /\
+  (forall t0 it rest, d_buf x = (t0, it) :: rest ->
+     exists it' rest', d_buf x' = (t0, it') :: rest' /\ item_leaves it' = item_leaves it /\ d_min_delay x' = d_min_delay x).
+Definition keeps_out (g : dev -> Prop) (f : dev -> dev) : Prop := forall x, g x -> out_kept x (f x).
+
+(** the three kinds of step sequences: [MNeutral] leaves the census of every device alone; [MGive] may also take a part in
+    (the offering phase of a hand-over); [MFull] may also let go of the part that was taken *)
+Inductive smode := MNeutral | MGive | MFull.
+
+Inductive wstep (n : smode) (nw : Z) : fw -> fw -> Prop :=
+| ws_dev w d g f : dprim nw g f -> keeps_res f -> (n = MNeutral -> neutral g f) -> (n <> MFull -> keeps_out g f) -> g (getd w d) ->
+                   wstep n nw w (updd w d f)
+| ws_emit w c : wstep n nw w (emitf w c)
+| ws_failf w e : wstep n nw w (failf w e)
+| ws_log w l : wstep n nw w (w <| f_cblog ::= cons l |>)
+| ws_nextid w z : wstep n nw w (w <| f_next_id := z |>)
+| ws_maint w mid f : wstep n nw w (maint_call w mid f)
+| ws_rm_quiet w f : rm_quiet (clean_rs (f_rm w)) (f (clean_rs (f_rm w))) -> wstep n nw w (rm_call w f)
 | ws_rm_raw w g :
     r_pools (g (f_rm w)) = r_pools (f_rm w) -> r_res (g (f_rm w)) = r_res (f_rm w) -> r_slots (g (f_rm w)) = r_slots (f_rm w) ->
-    wstep nw w (w <| f_rm ::= g |>)
+    wstep n nw w (w <| f_rm ::= g |>)
 | ws_reserve w d rq i :
     d_req (getd w d) = Some rq -> d_reserved (getd w d) = None -> amem d (f_devs w) = true ->
     snd (reserve nw rq (clean_rs (f_rm w))) = Some i ->
-    wstep nw w (updd (rm_call w (fun _ => fst (reserve nw rq (clean_rs (f_rm w))))) d (t_reserved (Some i)))
+    wstep n nw w (updd (rm_call w (fun _ => fst (reserve nw rq (clean_rs (f_rm w))))) d (t_reserved (Some i)))
 | ws_release w d i :
     d_reserved (getd w d) = Some i -> amem d (f_devs w) = true ->
-    wstep nw w (updd (rm_call w (release_obj nw i None)) d (t_reserved None))
-| ws_everywhere w pid f : (forall p, p_id (f p) = p_id p) -> wstep nw w (upd_part_everywhere pid f w).
+    wstep n nw w (updd (rm_call w (release_obj nw i None)) d (t_reserved None))
+| ws_everywhere w pid f : (forall p, p_id (f p) = p_id p) -> wstep n nw w (upd_part_everywhere pid f w).
 
-Inductive R (nw : Z) : fw -> fw -> Prop :=
-| R_refl w : R nw w w
-| R_step w1 w2 w3 : wstep nw w1 w2 -> R nw w2 w3 -> R nw w1 w3.
+Inductive R (n : smode) (nw : Z) : fw -> fw -> Prop :=
+| R_refl w : R n nw w w
+| R_step w1 w2 w3 : wstep n nw w1 w2 -> R n nw w2 w3 -> R n nw w1 w3.
 
 (** the device-level view of the same steps (all that per-device invariants need) *)
 Inductive dstep (nw : Z) : fw -> fw -> Prop :=
@@ -119,7 +156,7 @@ Proof. unfold rm_call. cbv zeta. destruct (_ =? 0); [auto|]. unfold failf. destr
 Lemma RD_one nw a b : dstep nw a b -> RD nw a b.
 Proof. intro H. econstructor; [exact H|constructor]. Qed.
 
-Lemma wstep_RD nw w w' : wstep nw w w' -> RD nw w w'.
+Lemma wstep_RD n nw w w' : wstep n nw w w' -> RD nw w w'.
 Proof.
   intro S. destruct S.
   - apply RD_one. eapply ds_dev; eauto.
@@ -140,8 +177,200 @@ Qed.
 Lemma RD_trans nw a b c : RD nw a b -> RD nw b c -> RD nw a c.
 Proof. induction 1 as [|w1 w2 w3 S _ IH]; intro Hbc; [exact Hbc|]. econstructor; [exact S|apply IH, Hbc]. Qed.
 
-Theorem R_RD nw w w' : R nw w w' -> RD nw w w'.
-Proof. induction 1 as [|w1 w2 w3 S _ IH]; [constructor|]. eapply RD_trans; [apply wstep_RD, S|exact IH]. Qed.
+Theorem R_RD n nw w w' : R n nw w w' -> RD nw w w'.
+Proof. induction 1 as [|w1 w2 w3 S _ IH]; [constructor|]. eapply RD_trans; [eapply wstep_RD, S|exact IH]. Qed.
+
+
+(** * the transformers that move parts around inside one device, or between a device and its ghost lists, are census-neutral *)
+Lemma leaves_same_ids f it : same_ids f -> item_leaves (f it) = item_leaves it.
+Proof. intro H. destruct (H it) as [_ [E _]]. exact E. Qed.
+
+Lemma batch_take_leaves it0 p rest : batch_take it0 = Some (p, rest) -> item_leaves it0 = p_id p :: opt_leaves rest.
+Proof.
+  destruct it0 as [q|b [|q ps]]; cbn; intro H; try discriminate.
+  - injection H as <- <-. reflexivity.
+  - injection H as <- <-. destruct ps; reflexivity.
+Qed.
+
+Local Arguments Z.add : simpl never.
+Local Arguments Z.sub : simpl never.
+Ltac psi_simpl := unfold psi, dev_inside; cbn -[cnt buf_leaves item_leaves].
+
+Lemma neutral_finish it :
+  neutral (fun x => d_part x = Some it /\ d_out x = None /\ (d_kind x = KHandler \/ d_kind x = KSink)) (t_finish it).
+Proof.
+  intros x z [P [O K]]. unfold t_finish. psi_simpl. rewrite P, O. cbn [opt_leaves].
+  destruct K as [K|K]; rewrite K; [|reflexivity]. rewrite !cnt_app. cbn [cnt]. lia.
+Qed.
+
+Lemma neutral_finish_proc nw it :
+  neutral (fun x => d_part x = Some it /\ d_out x = None /\ d_kind x = KProcessor) (t_finish_proc nw it).
+Proof.
+  intros x z [P [O K]]. unfold t_finish_proc, t_stop_use, t_finish. psi_simpl. rewrite P, O, K. cbn [opt_leaves].
+  rewrite !cnt_app. cbn [cnt]. lia.
+Qed.
+
+Lemma neutral_fail_clear nw : neutral (fun x => d_kind x = KProcessor) (t_fail_clear nw).
+Proof.
+  intros x z K. unfold t_fail_clear, t_stop_use. psi_simpl. rewrite K. cbn [opt_leaves]. rewrite !cnt_app. cbn [cnt]. lia.
+Qed.
+
+Lemma neutral_clear_out_sink : neutral (fun x => d_kind x = KSink) t_clear_out.
+Proof. intros x z K. unfold t_clear_out. psi_simpl. rewrite K. reflexivity. Qed.
+
+Lemma neutral_clear_part : neutral (fun x => d_kind x = KBatcher /\ exists b, d_part x = Some (IBatch b [])) t_clear_part.
+Proof. intros x z [K [b P]]. unfold t_clear_part. psi_simpl. rewrite K, P. reflexivity. Qed.
+
+Lemma neutral_generated it : neutral (fun x => d_out x = None /\ d_kind x = KSource) (t_generated it).
+Proof.
+  intros x z [O K]. unfold t_generated. psi_simpl. rewrite O, K. cbn [opt_leaves]. rewrite !cnt_app. cbn [cnt]. lia.
+Qed.
+
+Lemma neutral_map_slot slot f : same_ids f -> neutral (fun _ => True) (t_map_slot slot f).
+Proof.
+  intros H x z _. unfold t_map_slot. destruct slot; psi_simpl.
+  - destruct (d_part x); cbn [option_map opt_leaves]; [rewrite (leaves_same_ids f _ H)|]; reflexivity.
+  - destruct (d_out x); cbn [option_map opt_leaves]; [rewrite (leaves_same_ids f _ H)|]; reflexivity.
+Qed.
+
+Lemma buf_leaves_app a b : buf_leaves (a ++ b) = buf_leaves a ++ buf_leaves b.
+Proof. unfold buf_leaves. apply flat_map_app. Qed.
+
+Lemma neutral_buf_store nw it : neutral (fun x => d_part x = Some it /\ d_kind x = KBuffer) (t_buf_store nw it).
+Proof.
+  intros x z [P K]. unfold t_buf_store. psi_simpl. rewrite P, K. cbn [opt_leaves]. rewrite buf_leaves_app. unfold buf_leaves at 2. cbn [flat_map snd].
+  rewrite !cnt_app. cbn [cnt]. lia.
+Qed.
+
+Lemma neutral_batch_single rest p :
+  neutral (fun x => d_kind x = KBatcher /\ d_out x = None /\ d_batch_size x = None /\
+                    exists it0, d_part x = Some it0 /\ batch_take it0 = Some (p, rest)) (t_batch_single rest p).
+Proof.
+  intros x z [K [O [_ [it0 [P BT]]]]]. unfold t_batch_single. psi_simpl. rewrite K, O, P. cbn [opt_leaves].
+  rewrite (batch_take_leaves it0 p rest BT). change (item_leaves (ISingle p)) with [p_id p].
+  change ((p_id p :: opt_leaves rest) ++ [] ++ opt_leaves (d_inprog x) ++ buf_leaves (d_buf x)) with (p_id p :: (opt_leaves rest ++ opt_leaves (d_inprog x) ++ buf_leaves (d_buf x))).
+  rewrite !cnt_app. cbn [cnt]. rewrite !cnt_app. lia.
+Qed.
+
+Lemma neutral_batch_full rest b ps p size :
+  neutral (fun x => d_kind x = KBatcher /\ d_out x = None /\ d_batch_size x = Some size /\ size <= Z.of_nat (length (ps ++ [p])) /\
+                    (exists it0, d_part x = Some it0 /\ batch_take it0 = Some (p, rest)) /\
+                    (d_inprog x = Some (IBatch b ps) \/ (ps = [] /\ d_inprog x = None)))
+          (t_batch_full rest b (ps ++ [p])).
+Proof.
+  intros x z [K [O [_ [_ [[it0 [P BT]] IP]]]]]. unfold t_batch_full. psi_simpl. rewrite K, O, P. cbn [opt_leaves].
+  rewrite (batch_take_leaves it0 p rest BT). unfold item_leaves. cbn [item_parts]. rewrite map_app. cbn [map].
+  destruct IP as [E|[-> E]]; rewrite E; cbn [opt_leaves item_leaves item_parts map app]; unfold item_leaves; cbn [item_parts];
+    rewrite ?cnt_app; cbn [cnt app]; rewrite ?cnt_app; cbn [cnt]; lia.
+Qed.
+
+Lemma neutral_batch_more rest b ps p size :
+  neutral (fun x => d_kind x = KBatcher /\ d_out x = None /\ d_batch_size x = Some size /\ Z.of_nat (length (ps ++ [p])) < size /\
+                    (exists it0, d_part x = Some it0 /\ batch_take it0 = Some (p, rest)) /\
+                    (d_inprog x = Some (IBatch b ps) \/ (ps = [] /\ d_inprog x = None)))
+          (t_batch_more rest b (ps ++ [p])).
+Proof.
+  intros x z [K [O [_ [_ [[it0 [P BT]] IP]]]]]. unfold t_batch_more. psi_simpl. rewrite K, O, P. cbn [opt_leaves].
+  rewrite (batch_take_leaves it0 p rest BT). unfold item_leaves. cbn [item_parts]. rewrite map_app. cbn [map].
+  destruct IP as [E|[-> E]]; rewrite E; cbn [opt_leaves item_leaves item_parts map app]; unfold item_leaves; cbn [item_parts];
+    rewrite ?cnt_app; cbn [cnt app]; rewrite ?cnt_app; cbn [cnt]; lia.
+Qed.
+
+Lemma same_ids_add_value v : same_ids (item_add_value v).
+Proof. intros [p|b ps]; cbn; [|repeat split]. destruct (v =? 0); repeat split. Qed.
+Lemma same_ids_set_quality q : same_ids (part_set_quality q).
+Proof. intros [p|b ps]; cbn; repeat split. Qed.
+
+
+(** * ... and keep waiting parts where they are *)
+Lemma keeps_out_same (g : dev -> Prop) (f : dev -> dev) :
+  (forall x, d_kind (f x) = d_kind x /\ d_out (f x) = d_out x /\ d_buf (f x) = d_buf x /\ d_min_delay (f x) = d_min_delay x) -> keeps_out g f.
+Proof.
+  intros H x _. destruct (H x) as [A [B [C D]]]. split; [exact A|]. split.
+  - intros _ o HO. exists o. rewrite B. auto.
+  - intros t0 it rest HB. exists it, rest. rewrite C, D. auto.
+Qed.
+
+Lemma keeps_out_from_none (g : dev -> Prop) (f : dev -> dev) :
+  (forall x, g x -> d_out x = None) ->
+  (forall x, d_kind (f x) = d_kind x /\ d_buf (f x) = d_buf x /\ d_min_delay (f x) = d_min_delay x) -> keeps_out g f.
+Proof.
+  intros N H x G. destruct (H x) as [A [C D]]. split; [exact A|]. split.
+  - intros _ o HO. rewrite (N x G) in HO. discriminate.
+  - intros t0 it rest HB. exists it, rest. rewrite C, D. auto.
+Qed.
+
+Lemma keeps_out_map_slot slot f : same_ids f -> keeps_out (fun _ => True) (t_map_slot slot f).
+Proof.
+  intros H x _. unfold t_map_slot. destruct slot; (split; [reflexivity|split]).
+  - intros _ o HO. exists o. auto.
+  - intros t0 it rest HB. exists it, rest. auto.
+  - intros _ o HO. cbn. rewrite HO. cbn. eexists. split; [reflexivity|apply leaves_same_ids, H].
+  - intros t0 it rest HB. exists it, rest. auto.
+Qed.
+
+Lemma keeps_out_clear_out_sink : keeps_out (fun x => d_kind x = KSink) t_clear_out.
+Proof.
+  intros x K. split; [reflexivity|split].
+  - intro NS. contradiction.
+  - intros t0 it rest HB. exists it, rest. auto.
+Qed.
+
+Lemma keeps_out_buf_store nw it : keeps_out (fun x => d_part x = Some it /\ d_kind x = KBuffer) (t_buf_store nw it).
+Proof.
+  intros x _. split; [reflexivity|split].
+  - intros _ o HO. exists o. auto.
+  - intros t0 it0 rest HB. unfold t_buf_store. cbn. rewrite HB. exists it0, (rest ++ [(nw, it)]). auto.
+Qed.
+
+Ltac ko :=
+  let Hk := fresh "Hk" in
+  intro Hk;
+  first
+    [ congruence
+    | (exfalso; apply Hk; assumption)
+    | exact keeps_out_clear_out_sink | exact (keeps_out_buf_store _ _)
+    | (apply keeps_out_map_slot; first [assumption | apply same_ids_add_value | apply same_ids_set_quality])
+    | (apply keeps_out_same;
+       let x := fresh "x" in
+       intro x;
+       unfold t_accept_sink, t_accept_proc, t_accept_buffer, t_accept, t_shutdown, t_restore, t_supplied, t_fail_clear, t_stop_use, t_clear_part,
+              t_waiting_res, t_waiting_ds, t_set_cycle, t_add_offset, t_reset_offset, t_block, t_budget, t_reserved, t_batch_more, dev_set_wait, dev_add_value;
+       cbv zeta;
+       first [ solve [repeat split; reflexivity]
+             | (repeat match goal with
+                       | |- context[if ?b then _ else _] => destruct b
+                       | |- context[match ?o with _ => _ end] => destruct o
+                       end;
+                repeat split; reflexivity) ])
+    | (apply keeps_out_from_none;
+       [ let x := fresh "x" in let G := fresh "G" in intros x G; decompose [and] G; assumption
+       | let x := fresh "x" in intro x;
+         unfold t_finish_proc, t_stop_use, t_finish, t_generated, t_batch_single, t_batch_full; cbv zeta; repeat split; reflexivity ]) ].
+
+(** solves the side condition "this transformer is census-neutral" of a world step: either the context says steps need not be
+    neutral here ([n = false]), or the transformer leaves the part-holding fields alone, or it is one of the lemmas above *)
+Ltac kn :=
+  let Hn := fresh "Hn" in
+  intro Hn;
+  first
+    [ congruence
+    | exact (neutral_finish _) | exact (neutral_finish_proc _ _) | exact (neutral_fail_clear _) | exact neutral_clear_out_sink
+    | exact neutral_clear_part | exact (neutral_generated _) | exact (neutral_buf_store _ _) | exact (neutral_batch_single _ _)
+    | exact (neutral_batch_full _ _ _ _ _) | exact (neutral_batch_more _ _ _ _ _)
+    | (apply neutral_map_slot; first [assumption | apply same_ids_add_value | apply same_ids_set_quality])
+    | (apply neutral_same;
+       let x := fresh "x" in
+       intro x;
+       unfold t_shutdown, t_restore, t_supplied, t_waiting_res, t_waiting_ds, t_set_cycle, t_add_offset, t_reset_offset, t_block, t_budget,
+              t_reserved, dev_set_wait, dev_add_value;
+       cbv zeta;
+       first [ solve [repeat split; reflexivity]
+             | (repeat match goal with
+                       | |- context[if ?b then _ else _] => destruct b
+                       | |- context[match ?o with _ => _ end] => destruct o
+                       end;
+                repeat split; reflexivity) ]) ].
 
 Ltac kr :=
   let x := fresh "x" in
@@ -158,15 +387,19 @@ Ltac kr :=
 
 Section Steps.
 Variable nw : Z.
-Notation R := (R nw).
+Variable mode : smode.
+Notation R := (R mode nw).
+
+Lemma full_not_neutral : mode = MFull -> mode <> MNeutral.
+Proof. intros -> H. discriminate. Qed.
 
 Lemma R_trans a b c : R a b -> R b c -> R a c.
 Proof. induction 1 as [|w1 w2 w3 S _ IH]; intro Hbc; [exact Hbc|]. econstructor; [exact S|apply IH, Hbc]. Qed.
 
-Lemma R_one a b : wstep nw a b -> R a b.
+Lemma R_one a b : wstep mode nw a b -> R a b.
 Proof. intro H. econstructor; [exact H|constructor]. Qed.
 
-Lemma R_dev w d g f : dprim nw g f -> keeps_res f -> g (getd w d) -> R w (updd w d f).
+Lemma R_dev w d g f : dprim nw g f -> keeps_res f -> (mode = MNeutral -> neutral g f) -> (mode <> MFull -> keeps_out g f) -> g (getd w d) -> R w (updd w d f).
 Proof. intros. apply R_one. econstructor; eauto. Qed.
 
 Lemma R_emit w c : R w (emitf w c).
@@ -248,7 +481,7 @@ Proof.
 Qed.
 
 Lemma R_kind w w' : R w w' -> forall d, d_kind (getd w' d) = d_kind (getd w d).
-Proof. intro H. apply RD_kind, R_RD, H. Qed.
+Proof. intro H. eapply RD_kind, R_RD, H. Qed.
 
 Lemma amem_everywhere pid f w d : amem d (f_devs (upd_part_everywhere pid f w)) = amem d (f_devs w).
 Proof.
@@ -265,11 +498,11 @@ Proof.
 Qed.
 
 Lemma R_amem w w' : R w w' -> forall d, amem d (f_devs w') = amem d (f_devs w).
-Proof. intro H. apply RD_amem, R_RD, H. Qed.
+Proof. intro H. eapply RD_amem, R_RD, H. Qed.
 
 
 Ltac Rt := first [apply R_refl | apply R_emit | apply R_fail | apply R_data].
-Ltac step_dev w0 d0 f0 prim := apply (R_trans w0 (updd w0 d0 f0)); [apply (R_dev w0 d0 _ f0 prim); [kr|]|].
+Ltac step_dev w0 d0 f0 prim := apply (R_trans w0 (updd w0 d0 f0)); [apply (R_dev w0 d0 _ f0 prim); [kr|kn|ko|]|].
 
 (** * the functions, bottom up *)
 Lemma R_sched_pass off w d : R w (sched_pass nw off w d).
@@ -305,20 +538,16 @@ Proof. apply R_one, ws_maint. Qed.
 Lemma R_create_wo mid t g w : R w (create_wo nw mid t g w).
 Proof. apply R_maint_call. Qed.
 
-Lemma same_ids_add_value v : same_ids (item_add_value v).
-Proof. intros [p|b ps]; cbn; [|repeat split]. destruct (v =? 0); repeat split. Qed.
-Lemma same_ids_set_quality q : same_ids (part_set_quality q).
-Proof. intros [p|b ps]; cbn; repeat split. Qed.
 
 Lemma R_run_cbop d slot isf lost w o : R w (run_cbop nw d slot isf lost w o).
 Proof.
   unfold run_cbop. destruct (negb (okf w)); [Rt|].
   destruct o.
-  - apply (R_dev w d _ _ (dp_set_cycle nw z)); [kr|exact I].
-  - apply (R_dev w d _ _ (dp_add_offset nw z)); [kr|exact I].
+  - apply (R_dev w d _ _ (dp_set_cycle nw z)); [kr|kn|ko|exact I].
+  - apply (R_dev w d _ _ (dp_add_offset nw z)); [kr|kn|ko|exact I].
   - destruct (if slot then d_part (getd w d) else d_out (getd w d)) as [i|]; [|Rt].
-    destruct (is_batch i); [Rt|]. apply (R_dev w d _ _ (dp_map_slot nw slot _ (same_ids_add_value z))); [kr|exact I].
-  - apply (R_dev w d _ _ (dp_map_slot nw slot _ (same_ids_set_quality z))); [kr|exact I].
+    destruct (is_batch i); [Rt|]. apply (R_dev w d _ _ (dp_map_slot nw slot _ (same_ids_add_value z))); [kr|kn|ko|exact I].
+  - apply (R_dev w d _ _ (dp_map_slot nw slot _ (same_ids_set_quality z))); [kr|kn|ko|exact I].
   - apply R_create_wo.
   - destruct isf; [apply R_create_wo|Rt].
   - apply R_one, ws_log.
@@ -356,7 +585,9 @@ Proof.
   - (* sink *)
     step_dev w d (t_finish it) (dp_finish nw it); [cbn beta; fold x; rewrite K; repeat split; auto|].
     eapply R_trans; [apply R_sched_pass|].
-    match goal with |- R ?w0 _ => step_dev w0 d t_clear_out (dp_clear_out nw); [exact I|apply R_signal] end.
+    match goal with |- R ?w0 _ => step_dev w0 d t_clear_out (dp_clear_out_sink nw); [|apply R_signal] end.
+    cbn beta. rewrite (R_kind _ _ (R_sched_pass 0 (updd w d (t_finish it)) d) d).
+    rewrite (getd_updd_field d_kind w d (t_finish it) d) by reflexivity. exact K.
 Qed.
 
 Lemma R_sched_finish fuel w d : R w (sched_finish fuel nw w d).
@@ -384,28 +615,22 @@ Proof.
   assert (KP : forall w0 f0, (forall y, d_kind (f0 y) = d_kind y) -> f_devs w0 = f_devs w -> d_kind (getd (updd w0 d f0) d) = KBatcher).
   { intros w0 f0 Hk Hd. rewrite (getd_updd_field d_kind w0 d f0 d Hk). rewrite (getd_other_fields w w0 d Hd). exact KB. }
   destruct (d_batch_size x) as [size|] eqn:BS.
-  - assert (NEW : forall (NB : forall b' ps', d_inprog x <> Some (IBatch b' ps')),
-               R w (batcher_fill n
-                      (if size <=? Z.of_nat (length ([] ++ [p]))
-                       then updd (w <| f_next_id := f_next_id w + 1 |>) d (t_batch_full rest (mkPart (f_next_id w + 1) 0 0 [] []) ([] ++ [p]))
-                       else updd (w <| f_next_id := f_next_id w + 1 |>) d (t_batch_more rest (mkPart (f_next_id w + 1) 0 0 [] []) ([] ++ [p]))) d)).
-    { intro NB. set (w1 := w <| f_next_id := f_next_id w + 1 |>).
-      apply (R_trans w w1); [apply R_nextid|].
-      destruct (Z.leb_spec size (Z.of_nat (length ([] ++ [p])))).
-      - step_dev w1 d (t_batch_full rest (mkPart (f_next_id w + 1) 0 0 [] []) ([] ++ [p])) (dp_batch_full nw rest (mkPart (f_next_id w + 1) 0 0 [] []) [] p size);
-          [cbn beta; change (getd w1 d) with x; repeat split; auto; try (exists it; auto); try (right; split; [reflexivity|exact NB])|].
-        apply IH. apply KP; reflexivity.
-      - step_dev w1 d (t_batch_more rest (mkPart (f_next_id w + 1) 0 0 [] []) ([] ++ [p])) (dp_batch_more nw rest (mkPart (f_next_id w + 1) 0 0 [] []) [] p size);
-          [cbn beta; change (getd w1 d) with x; repeat split; auto; try (exists it; auto); try (right; split; [reflexivity|exact NB])|].
-        apply IH. apply KP; reflexivity. }
-    destruct (d_inprog x) as [[pp|b ps]|] eqn:IP.
-    + apply NEW. intros b' ps'. discriminate.
+  - destruct (d_inprog x) as [[pp|b ps]|] eqn:IP.
+    + apply IH. exact KB.
     + destruct (Z.leb_spec size (Z.of_nat (length (ps ++ [p])))).
       * step_dev w d (t_batch_full rest b (ps ++ [p])) (dp_batch_full nw rest b ps p size);
           [cbn beta; fold x; repeat split; auto; exists it; auto|apply IH; apply KP; reflexivity].
       * step_dev w d (t_batch_more rest b (ps ++ [p])) (dp_batch_more nw rest b ps p size);
           [cbn beta; fold x; repeat split; auto; exists it; auto|apply IH; apply KP; reflexivity].
-    + apply NEW. intros b' ps'. discriminate.
+    + set (w1 := w <| f_next_id := f_next_id w + 1 |>).
+      apply (R_trans w w1); [apply R_nextid|].
+      destruct (Z.leb_spec size (Z.of_nat (length ([] ++ [p])))).
+      * step_dev w1 d (t_batch_full rest (mkPart (f_next_id w + 1) 0 0 [] []) ([] ++ [p])) (dp_batch_full nw rest (mkPart (f_next_id w + 1) 0 0 [] []) [] p size);
+          [cbn beta; change (getd w1 d) with x; repeat split; auto; try (exists it; auto); try (right; split; [reflexivity|exact IP])|].
+        apply IH. apply KP; reflexivity.
+      * step_dev w1 d (t_batch_more rest (mkPart (f_next_id w + 1) 0 0 [] []) ([] ++ [p])) (dp_batch_more nw rest (mkPart (f_next_id w + 1) 0 0 [] []) [] p size);
+          [cbn beta; change (getd w1 d) with x; repeat split; auto; try (exists it; auto); try (right; split; [reflexivity|exact IP])|].
+        apply IH. apply KP; reflexivity.
   - step_dev w d (t_batch_single rest p) (dp_batch_single nw rest p);
       [cbn beta; fold x; repeat split; auto; exists it; auto|apply IH; apply KP; reflexivity].
 Qed.
@@ -484,9 +709,9 @@ Proof.
   destruct (d_part x); [discriminate|]. destruct (d_out x); [discriminate|]. auto.
 Qed.
 
-Lemma R_accept fuel w d it : can_take (getd w d) it -> R w (accept fuel nw w d it).
+Lemma R_accept fuel w d it : mode <> MNeutral -> can_take (getd w d) it -> R w (accept fuel nw w d it).
 Proof.
-  intros [P [O [B SH]]]. unfold accept. set (it1 := item_add_hist d it). set (x0 := getd w d) in *.
+  intros NF [P [O [B SH]]]. unfold accept. set (it1 := item_add_hist d it). set (x0 := getd w d) in *.
   match goal with |- context[rec_part ?ww L_RECEIVED d nw it1] => set (w2 := ww) end.
   assert (R2 : R w w2).
   { unfold w2. destruct (d_kind x0) eqn:K.
@@ -532,9 +757,9 @@ Proof.
   - destruct (negb (okf w0)); [intro E; discriminate|]. destruct (d_waiting_res x); intro E; discriminate.
 Qed.
 
-Lemma R_give fuel : forall w d it, R w (fst (give fuel nw w d it)).
+Lemma R_give fuel : mode <> MNeutral -> forall w d it, R w (fst (give fuel nw w d it)).
 Proof.
-  induction fuel as [|f IH]; intros w d it; cbn [give]; [apply R_fail|].
+  intro NF. induction fuel as [|f IH]; intros w d it; cbn [give]; [apply R_fail|].
   destruct (negb (okf w)); [Rt|]. set (x := getd w d).
   assert (TL : forall it0 l w0 b,
              R w0 (fst (fold_left (fun (acc : fw * bool) d' => if snd acc then acc else give f nw (fst acc) d' it0) l (w0, b)))).
@@ -544,7 +769,7 @@ Proof.
     - pose proof (IH w0 d' it0) as X. destruct (give f nw w0 d' it0) as [w1 b1]. cbn [fst] in X.
       eapply R_trans; [exact X|apply IHl]. }
   assert (ACC : handler_can_accept x = true -> d_kind x <> KBuffer -> d_kind x <> KProcessor -> R w (accept f nw w d it)).
-  { intros H NB NP. apply R_accept. destruct (handler_can_accept_slots x H). split; [assumption|split; [assumption|split]].
+  { intros H NB NP. apply R_accept; [exact NF|]. destruct (handler_can_accept_slots x H). split; [assumption|split; [assumption|split]].
     - intro KK. exfalso. apply NB. exact KK.
     - intro KK. exfalso. apply NP. exact KK. }
   destruct (d_kind x) eqn:K.
@@ -553,13 +778,13 @@ Proof.
   - destruct (handler_can_accept x) eqn:H; [|Rt]. cbn [fst]. apply ACC; [reflexivity|discriminate|discriminate].
   - destruct (proc_can_accept nw w d) as [w1 ok] eqn:PC.
     assert (R1 : R w w1) by (pose proof (R_proc_can_accept w d) as X; rewrite PC in X; exact X).
-    destruct ok; [|exact R1]. cbn [fst]. eapply R_trans; [exact R1|]. apply R_accept.
+    destruct ok; [|exact R1]. cbn [fst]. eapply R_trans; [exact R1|]. apply R_accept; [exact NF|].
     destruct (proc_can_accept_ok w d w1 PC) as [HC [P [O [KK [SS HR]]]]]. split; [assumption|split; [assumption|split]].
     + rewrite KK. fold x. rewrite K. discriminate.
     + intros _. split; [|exact HR]. rewrite SS. fold x. unfold handler_can_accept, operational in HC. fold x in HC. rewrite K in HC.
       destruct (d_shut x); [discriminate|reflexivity].
   - destruct (inf_leb (d_level x + item_count it) (d_capacity x) && handler_can_accept x) eqn:H; [|Rt]. cbn [fst].
-    apply andb_true_iff in H. destruct H as [HL HC]. apply R_accept.
+    apply andb_true_iff in H. destruct H as [HL HC]. apply R_accept; [exact NF|].
     destruct (handler_can_accept_slots x HC). split; [assumption|split; [assumption|split; [intros _; exact HL|]]].
     fold x. rewrite K. discriminate.
   - destruct (handler_can_accept x) eqn:H; [|Rt]. cbn [fst]. apply ACC; [reflexivity|discriminate|discriminate].
@@ -573,25 +798,27 @@ Proof.
     eapply R_trans; [exact T|]. apply R_one, ws_everywhere. intro p. reflexivity.
 Qed.
 
-Lemma R_try_list fuel it l : forall w0 b,
+Lemma R_try_list fuel it l : mode <> MNeutral -> forall w0 b,
   R w0 (fst (fold_left (fun (acc : fw * bool) d' => if snd acc then acc else give fuel nw (fst acc) d' it) l (w0, b))).
 Proof.
-  induction l as [|d' l IHl]; intros w0 b; cbn; [Rt|].
+  intro NF. induction l as [|d' l IHl]; intros w0 b; cbn; [Rt|].
   destruct b; cbn [snd fst].
   - apply IHl.
-  - pose proof (R_give fuel w0 d' it) as X. destruct (give fuel nw w0 d' it) as [w1 b1]. cbn [fst] in X.
+  - pose proof (R_give fuel NF w0 d' it) as X. destruct (give fuel nw w0 d' it) as [w1 b1]. cbn [fst] in X.
     eapply R_trans; [exact X|apply IHl].
 Qed.
 
-Lemma R_try_downstream fuel w d it : R w (fst (try_downstream fuel nw w d it)).
-Proof. unfold try_downstream. apply R_try_list. Qed.
+Lemma R_try_downstream fuel w d it : mode <> MNeutral -> R w (fst (try_downstream fuel nw w d it)).
+Proof. intro NF. unfold try_downstream. apply R_try_list, NF. Qed.
 
-Lemma R_handler_pass fuel w d : R w (fst (handler_pass fuel nw w d)).
+Lemma R_handler_pass fuel w d : mode = MFull -> R w (fst (handler_pass fuel nw w d)).
 Proof.
-  unfold handler_pass. set (x := getd w d). destruct (d_out x) as [it|]; [|Rt]. destruct (negb (operational x)); [Rt|].
-  pose proof (R_try_downstream fuel w d it) as X. destruct (try_downstream fuel nw w d it) as [w1 ok]. cbn [fst] in X.
+  intro NF. unfold handler_pass. set (x := getd w d). destruct (d_out x) as [it|]; [|Rt]. destruct (negb (operational x)); [Rt|].
+  pose proof (R_try_downstream fuel w d it (full_not_neutral NF)) as X. destruct (try_downstream fuel nw w d it) as [w1 ok]. cbn [fst] in X.
   destruct ok; cbn [fst]; (eapply R_trans; [exact X|]).
-  - step_dev w1 d t_clear_out (dp_clear_out nw); [exact I|apply R_signal].
+  - destruct (kind_eqb (d_kind (getd w1 d)) KSink) eqn:KS.
+    + step_dev w1 d t_clear_out (dp_clear_out_sink nw); [cbn beta; destruct (d_kind (getd w1 d)); try discriminate; reflexivity|apply R_signal].
+    + step_dev w1 d t_clear_out (dp_clear_out nw); [cbn beta; intro E; rewrite E in KS; discriminate|apply R_signal].
   - step_dev w1 d (t_waiting_ds true) (dp_waiting_ds nw true); [exact I|Rt].
 Qed.
 
@@ -639,12 +866,12 @@ Proof.
   eapply R_trans; [exact R2|]. apply R_run_cbops.
 Qed.
 
-Lemma R_buffer_loop n fuel : forall w d, d_kind (getd w d) = KBuffer -> R w (buffer_loop n fuel nw w d).
+Lemma R_buffer_loop n fuel : mode = MFull -> forall w d, d_kind (getd w d) = KBuffer -> R w (buffer_loop n fuel nw w d).
 Proof.
-  induction n as [|n IH]; intros w d KB; cbn [buffer_loop]; [Rt|].
+  intro NF. induction n as [|n IH]; intros w d KB; cbn [buffer_loop]; [Rt|].
   set (x := getd w d) in *. destruct (d_buf x) as [|[t0 it] rest] eqn:B; [Rt|].
   destruct (0 <? d_min_delay x - (nw - t0)); [Rt|].
-  pose proof (R_try_downstream fuel w d it) as X. destruct (try_downstream fuel nw w d it) as [w1 ok] eqn:TD. cbn [fst] in X.
+  pose proof (R_try_downstream fuel w d it (full_not_neutral NF)) as X. destruct (try_downstream fuel nw w d it) as [w1 ok] eqn:TD. cbn [fst] in X.
   destruct ok; [|exact X]. eapply R_trans; [exact X|].
   assert (K1 : d_kind (getd w1 d) = KBuffer) by (rewrite (R_kind w w1 X d); exact KB).
   step_dev w1 d (t_buf_pop nw) (dp_buf_pop nw); [exact K1|]. eapply R_trans; [apply R_data|]. apply IH.
@@ -653,12 +880,12 @@ Proof.
   intro y. unfold t_buf_pop. destruct (d_buf y) as [|[? ?] ?]; [reflexivity|]. destruct (0 <? _); reflexivity.
 Qed.
 
-Lemma R_pass_part fuel w d : R w (pass_part fuel nw w d).
+Lemma R_pass_part fuel w d : mode = MFull -> R w (pass_part fuel nw w d).
 Proof.
-  unfold pass_part. set (x := getd w d). destruct (d_kind x) eqn:K; try apply R_handler_pass.
+  intro NF. unfold pass_part. set (x := getd w d). destruct (d_kind x) eqn:K; try (apply R_handler_pass; exact NF).
   - (* buffer *)
     cbv zeta. set (w1' := buffer_loop (S (length (d_buf x))) fuel nw w d).
-    apply (R_trans w w1'); [apply R_buffer_loop; exact K|].
+    apply (R_trans w w1'); [apply R_buffer_loop; [exact NF|exact K]|].
     eapply R_trans; [|apply R_signal].
     destruct (d_buf (getd w1' d)) as [|[t0 it] rest]; [Rt|].
     match goal with |- context[if ?c then _ else _] => destruct c end; [apply R_sched_pass|].
@@ -666,12 +893,12 @@ Proof.
   - (* source *)
     destruct (d_out x) as [it|]; [|Rt].
     match goal with |- context[if negb ?c then _ else _] => destruct (negb c) end; [Rt|].
-    pose proof (R_handler_pass fuel w d) as X. destruct (handler_pass fuel nw w d) as [w1 ok]. cbn [fst] in X.
+    pose proof (R_handler_pass fuel w d NF) as X. destruct (handler_pass fuel nw w d) as [w1 ok]. cbn [fst] in X.
     destruct ok; [|exact X]. eapply R_trans; [exact X|].
     step_dev w1 d (t_supplied nw (item_value it)) (dp_supplied nw (item_value it)); [cbn beta; rewrite (R_kind w w1 X d); exact K|].
     eapply R_trans; [apply R_data|apply R_sched_finish].
   - (* batcher *)
-    pose proof (R_handler_pass fuel w d) as X. destruct (handler_pass fuel nw w d) as [w1 ok]. cbn [fst] in X.
+    pose proof (R_handler_pass fuel w d NF) as X. destruct (handler_pass fuel nw w d) as [w1 ok]. cbn [fst] in X.
     eapply R_trans; [exact X|]. destruct (d_out (getd w1 d)); [Rt|]. apply R_batcher_try_move.
     rewrite (R_kind w w1 X d). exact K.
 Qed.
@@ -682,11 +909,11 @@ Proof.
   destruct (nth_error (r_wait (f_rm w)) i) as [[r cb id]|]; [|Rt].
   destruct (can_fulfill (r_pools (f_rm w)) r); [|apply IH].
   match goal with |- context[signal fuel nw true (updd ?w1 ?dd _) _] => set (w1' := w1); set (d := dd) end.
-  apply (R_trans w w1'); [apply R_one, (ws_rm_raw nw w); reflexivity|].
+  apply (R_trans w w1'); [apply R_one, (ws_rm_raw mode nw w); reflexivity|].
   step_dev w1' d (t_waiting_res false) (dp_waiting_res nw false); [exact I|].
   eapply R_trans; [apply R_signal|].
   match goal with |- context[if negb (okf ?w2) then _ else _] => destruct (negb (okf w2)) end; [Rt|].
-  eapply R_trans; [|apply IH]. match goal with |- R ?w2 _ => apply R_one, (ws_rm_raw nw w2); reflexivity end.
+  eapply R_trans; [|apply IH]. match goal with |- R ?w2 _ => apply R_one, (ws_rm_raw mode nw w2); reflexivity end.
 Qed.
 
 Lemma R_maint_start mid wo w : R w (maint_start nw mid wo w).
@@ -711,12 +938,26 @@ Proof.
   - apply R_create_wo.
 Qed.
 
-(** every event action of the floor is a sequence of guarded device transformers *)
-Theorem R_exec_fact fuel uops a w : R w (exec_fact fuel uops a w nw).
+(** every event action of the floor is a sequence of world steps ... *)
+Theorem R_exec_fact fuel uops a w : mode = MFull -> R w (exec_fact fuel uops a w nw).
 Proof.
-  destruct a as [d|d|d|d| |m [wo|wo]|k]; cbn [exec_fact].
+  intro NF. destruct a as [d|d|d|d| |m [wo|wo]|k]; cbn [exec_fact].
   - apply R_finish_cycle.
-  - apply R_pass_part.
+  - apply R_pass_part, NF.
+  - apply R_fail_proc.
+  - apply R_release_if_idle.
+  - apply R_res_check.
+  - apply R_maint_start.
+  - apply R_maint_finish.
+  - apply R_fold. intros. apply R_run_uop.
+Qed.
+
+(** ... and every action other than a hand-over attempt consists of census-neutral steps only *)
+Theorem R_exec_fact_neutral fuel uops a w : (forall d, a <> APassPart d) -> R w (exec_fact fuel uops a w nw).
+Proof.
+  intro NP. destruct a as [d|d|d|d| |m [wo|wo]|k]; cbn [exec_fact].
+  - apply R_finish_cycle.
+  - exfalso. apply (NP d). reflexivity.
   - apply R_fail_proc.
   - apply R_release_if_idle.
   - apply R_res_check.
